@@ -90,7 +90,8 @@ class TransactionContextDecorator:
     def __call__(self, func: DecoratedFunc) -> DecoratedFunc:
         @wraps(func)
         async def wrapper(*args, **kwargs):
-            async with self:
+            # a context object per call: concurrent calls must not share the reset token and the inner flag
+            async with TransactionContextDecorator(self._mode, self._timeout):
                 return await func(*args, **kwargs)
 
         return wrapper  # type: ignore[return-value]
